@@ -189,7 +189,7 @@ PureNative(name, args) ==
     [] name = "round" -> Num1(LAMBDA x : Val(VNum(Round(x))), args)
     [] name = "sin"   -> Num1(LAMBDA x : IF TrigExact(x) THEN Val(VNum(Sin(x))) ELSE Val(VApprox(Sin(x), IF Moderate(x) THEN 4 ELSE -1, <<"sin", x>>)), args)
     [] name = "cos"   -> Num1(LAMBDA x : IF TrigExact(x) THEN Val(VNum(Cos(x))) ELSE Val(VApprox(Cos(x), IF Moderate(x) THEN 4 ELSE -1, <<"cos", x>>)), args)
-    [] name = "tan"   -> Num1(LAMBDA x : IF TrigExact(x) THEN Val(VNum(Tan(x))) ELSE Val(VApprox(Tan(x), IF Moderate(x) THEN 16 ELSE -1, <<"tan", x>>)), args)
+    [] name = "tan"   -> Num1(LAMBDA x : IF TrigExact(x) THEN Val(VNum(Tan(x))) ELSE Val(VApprox(Tan(x), IF Moderate(x) THEN 32 ELSE -1, <<"tan", x>>)), args)
     [] name = "pow"   -> IF Len(args) # 2 THEN Err("arity")
                          ELSE LET x == NumOperand(args[1])  y == NumOperand(args[2]) IN
                               IF x.r = "err" \/ y.r = "err" THEN Err("native")
